@@ -429,12 +429,15 @@ func (b *builder) imports() {
 		b.w("use " + b.varyKw(kindWord))
 		if group {
 			b.feats["import:group"]++
-			prefix := b.segs(1, 2)
+			// prefixes of up to 7 segments: the parser grows its parts slices by appending, so the
+			// spare capacity behind a prefix (and what an append to it overwrites) depends on its length
+			prefix := b.segs(1, 2+b.intn(6, "prefixlen"))
+			b.feats[fmt.Sprintf("import:group-prefix-len%d", len(prefix))]++
 			if b.chance(1, 4, "leading") {
 				b.w("\\")
 			}
 			b.w(strings.Join(prefix, "\\") + "\\{")
-			k := 1 + b.intn(3, "nitems")
+			k := 1 + b.intn(4, "nitems")
 			for j := 0; j < k; j++ {
 				if j > 0 {
 					b.w(", ")
@@ -475,6 +478,10 @@ func (b *builder) varyKw(s string) string {
 
 func (b *builder) importItem(k kind, prefix []string) {
 	segs := b.segs(1, 2)
+	if prefix == nil && b.chance(1, 3, "longimport") {
+		segs = b.segs(3, 7)
+		b.feats["import:long-name"]++
+	}
 	full := strings.Join(append(append([]string{}, prefix...), segs...), "\\")
 	alias := segs[len(segs)-1]
 	text := strings.Join(segs, "\\")
@@ -532,7 +539,7 @@ func (b *builder) program() {
 		b.feats["ns:semicolon"]++
 		k := 1 + b.intn(3, "nns")
 		for i := 0; i < k; i++ {
-			ns := strings.Join(b.segs(1, 2), "\\")
+			ns := strings.Join(b.segs(1, 1+b.intn(5, "nslen")), "\\")
 			b.w(b.vary("namespace") + " " + ns + ";\n")
 			b.sc = newScope(ns)
 			b.section()
@@ -546,7 +553,7 @@ func (b *builder) program() {
 				b.sc = newScope("")
 				b.feats["ns:unnamed-braced"]++
 			} else {
-				ns := strings.Join(b.segs(1, 2), "\\")
+				ns := strings.Join(b.segs(1, 1+b.intn(5, "nslen")), "\\")
 				b.w("namespace " + ns + " {\n")
 				b.sc = newScope(ns)
 			}
